@@ -207,6 +207,19 @@ def gen_payload(r, cls, simple=True):
         rec = {"dtype": r.choice(DTYPES), "shape": [r.randrange(1, 4) for _ in range(rank)], "seed": r.randrange(10**6)}
         if r.random() < 0.3:
             rec["units"] = r.choice(["nm", "", "Å", "counts per pixel"])
+        if r.random() < 0.35:
+            # calibrated axes: a pair or a full (non-linear) vector per axis, units and names incl. the empty string
+            dims = []
+            for n in rec["shape"]:
+                c = r.random()
+                if c < 0.4:
+                    dims.append(r.choice([[0, 2], [0.0, 0.5], [-1.5, -1.0], [3, 1]]))
+                elif c < 0.7:
+                    dims.append([k * k + (0.5 if r.random() < 0.5 else 0) for k in range(n)])
+                else:
+                    dims.append(None)
+            rec["cal"] = {"dims": dims, "dunits": [r.choice(["nm", "", "Å", "A^-1", "pixels"]) for _ in rec["shape"]],
+                          "dnames": [r.choice(["rx", "", "q y", "énergie"]) + (str(i) if r.random() < 0.5 else "") for i, _ in enumerate(rec["shape"])]}
         return rec
     if cls == "PointList":
         used = set()
@@ -244,6 +257,10 @@ def build_node(rec):
         kw = {}
         if "units" in pay:
             kw["units"] = pay["units"]
+        if "cal" in pay:
+            kw["dims"] = [None if d is None else list(d) for d in pay["cal"]["dims"]]
+            kw["dim_units"] = list(pay["cal"]["dunits"])
+            kw["dim_names"] = list(pay["cal"]["dnames"])
         n = emdfile.Array(data=build_arr(pay), name=name, **kw)
     elif cls == "PointList":
         n = emdfile.PointList(data=build_structured(pay["fields"], pay["len"], pay["seed"]), name=name)
